@@ -10,6 +10,7 @@ layout - so inserted lines shift reported line numbers by exactly the number ins
 no error diagnostic.  Comparing every layout with the same model is stronger than comparing layouts pairwise.
 """
 import os
+import re
 
 from crosshair.tracers import NoTracing
 
@@ -69,6 +70,25 @@ def check(p, lay: Layout, via_text=False, path="/x/prog.f90", want_fixed=None):
         miss = [x for x in exp_v if x not in got_v2]
         extra = [x for x in got_v2 if x not in exp_v]
         return f"variables differ: missing {miss} unexpected {extra}\n" + "\n".join(f"{i}: {ln}" for i, ln in enumerate(lines))
+    # where each declared name stands: the position reported for definition targets and diagnostic ranges
+    # (find_word_in_code_line from the statement's first line, through continuation lines, in any letter case)
+    for n, sid, i, _ in p.vars:
+        if n.startswith("z") and p.scopes[sid].kind == "select":
+            continue  # associate names of SELECT TYPE regions are declared on the SELECT line, not on the guard's
+        start = line_of[i]
+        stop = min([line_of[j] for j in line_of if line_of[j] > start] + [len(lines)])
+        want = None
+        for j in range(start, stop):
+            mm = re.search(r"(?<![\w$])" + re.escape(n.lower()) + r"(?![\w$])", lines[j].lower().split("!")[0])
+            if mm:
+                want = (j, mm.start(), mm.end())
+                break
+        if want is None:
+            continue
+        spelled = next((v.name for v in ast.variable_list if v.name.lower() == n.lower() and v.sline - 1 == start), n)
+        gl, rng = f.find_word_in_code_line(start, spelled)  # as the server asks: with the name as spelled in the source
+        if (gl, rng.start, rng.end) != want:
+            return f"position of '{n}' declared in the statement starting on line {start}: reported {(gl, rng.start, rng.end)}, it stands at {want}\n" + "\n".join(f"{i}: {ln}" for i, ln in enumerate(lines))
     # bindings: link the file the way the server does and compare with the model
     obj_tree = {k: [o, path] for k, o in ast.global_dict.items()}
     ast.resolve_links(obj_tree, 1)
@@ -144,9 +164,17 @@ def split(i1: int, amp: bool, case: int) -> bool:
         for p in programs(i1):
             for i, st in enumerate(p.sts):
                 for k in range(1, len(st.toks)):
-                    lay = Layout(case=case * 2, split=(i, k), lead_amp=amp, cont_gap=[None, "", "   ", "  ! comment & inside"][(i + k) % 4],
+                    lay = Layout(case=case * 3, split=(i, k), lead_amp=amp, cont_gap=[None, "", "   ", "  ! comment & inside"][(i + k) % 4],
                                  cont_comment=[None, " ! in & out", " ! plain"][(i + 2 * k) % 3])
                     msg = check(p, lay)
+                    if msg is None and k + 2 < len(st.toks) and (THOROUGH or (i + k) % 2 == 0):
+                        msg = check(p, Layout(case=case * 3, split=(i, k), split2=k + 2, lead_amp=amp, cont_gap=[None, "", "  ! c"][(i + k) % 3],
+                                              cont_gap2=["  ! c2", None, ""][(i + k) % 3]))
+                    if msg is None and (i + k) % (3 if THOROUGH else 6) == 0:
+                        # classic six-blank indentation: the continuation mark is the only sign of free form, whether it
+                        # ends the line, is followed by blanks, or by a comment
+                        for cc, tb in ((None, False), (None, True), (" ! why", False)):
+                            msg = msg or check(p, Layout(case=case * 3, split=(i, k), lead_amp=amp, base_indent=6, cont_comment=cc, trail_blank=tb), want_fixed=False)
                     if msg:
                         FAIL.append(msg)
                         ok = False
@@ -181,9 +209,14 @@ def fixed(i1: int, cc: int, case: int, kind: int) -> bool:
             elif kind == 1:
                 lays = (Layout(form="fixed", case=case, fixed_cchar=CCHARS[cc], comment_before=i, blank_before=(i + 3) % n) for i in range(n))
             else:
-                lays = (Layout(form="fixed", case=case, fixed_cchar=CCHARS[cc], split=(i, k), fixed_cont="&1+x$"[(i + k) % 5],
-                               cont_gap=[None, "", "   ", " comment between"][(i + k) % 4])
-                        for i, st in enumerate(p.sts) for k in range(1, len(st.toks)))
+                gaps = [None, "", "   ", " comment between"]
+                lays = [Layout(form="fixed", case=case, fixed_cchar=CCHARS[cc], split=(i, k), fixed_cont="&1+x$"[(i + k) % 5],
+                               cont_gap=gaps[(i + k) % 4])
+                        for i, st in enumerate(p.sts) for k in range(1, len(st.toks))]
+                # three pieces: comment / blank lines in the first gap, the second gap, or both
+                lays += [Layout(form="fixed", case=case, fixed_cchar=CCHARS[cc], split=(i, k), split2=k + 2, fixed_cont="&1+x$"[(i + k) % 5],
+                                cont_gap=gaps[(i + k) % 4], cont_gap2=gaps[(i + 2 * k + 1) % 4])
+                         for i, st in enumerate(p.sts) for k in range(1, len(st.toks) - 2, 2)]
             for lay in lays:
                 msg = check(p, lay, path="/x/prog.f", want_fixed=True)
                 if msg:
@@ -224,10 +257,11 @@ def free_not_fixed(i1: int, indent: int, case: int, m: int) -> bool:
             msg = check(p, Layout(case=case, indent=indent), want_fixed=False)
             if msg is None:
                 # every statement starts in column 7 or later and no letter is in column 1: the only free-form evidence
-                # is one continuation whose '&' is followed by a trailing comment
+                # is one continuation whose '&' ends the line, or is followed by blanks or by a trailing comment
                 j = (i1 + indent + m) % len(p.sts)
                 if len(p.sts[j].toks) > 2:
-                    msg = check(p, Layout(case=case, indent=indent, base_indent=6, split=(j, 2), cont_comment=" ! why"), want_fixed=False)
+                    for cc, tb in ((" ! why", False), (None, False), (None, True), (" ! say \"no!\" &", False)):
+                        msg = msg or check(p, Layout(case=case, indent=indent, base_indent=6, split=(j, 2), cont_comment=cc, trail_blank=tb), want_fixed=False)
             if msg:
                 FAIL.append(msg)
                 ok = False
